@@ -48,6 +48,16 @@ def handle : Handler := fun j => do
     let o : WriteOpts := { noOptional := ← jbool j "noOptional", flavor := ← jstrOpt j "flavor", native := ← jstr j "native" }
     let text := if (← jbool j "pinned") then writePinned o [] m else write o [] m
     pure (Json.mkObj [("text", ofStr text)])
+  | "dwrite" =>
+    -- a manifest written by a distrib type's writeManifest (flavor keyword as Repository.create passes it) and read back
+    let deps ← (← jarr j "deps").mapM depOfJson
+    let m : Manifest := { product := ← jstrOpt j "product", version := ← jstrOpt j "version", deps := deps }
+    let o : WriteOpts := { noOptional := false, flavor := ← jstrOpt j "flavor", native := ← jstr j "native" }
+    let w := if (← (← j.getObjVal? "writer").getStr?) == "tarball" then Writer.tarball else Writer.default
+    let text := distribWriteManifest w o m
+    match read false false text with
+    | .error e => pure (Json.mkObj [("text", ofStr text), ("error", errName e)])
+    | .ok r => pure (Json.mkObj [("text", ofStr text), ("deps", Json.arr (r.deps.map depToJson).toArray)])
   | "mread" =>
     match read (← jbool j "pinned") (← jbool j "recurse") (← jstr j "text") with
     | .error e => pure (Json.mkObj [("error", errName e)])
